@@ -1,5 +1,5 @@
 (** A concrete instance of [run_setup] and two reachable states of its run (non-vacuity of the whole-run theorems). *)
-From TB Require Import Base Decimal BencodeModel TorrentModel LayoutModel PathModel FsModel SolverModel FinderModel RunModel SolverProofs FsProofs SystemModel SystemProofs GlueProofs EstablishProofs CompleteProofs.
+From TB Require Import Base Decimal BencodeModel TorrentModel LayoutModel PathModel FsModel SolverModel FinderModel RunModel SolverProofs FsProofs SystemModel SystemProofs GlueProofs EstablishProofs CompleteProofs RerunProofs.
 Local Open Scope N_scope.
 Definition Hid (b : list N) : list N := b.
 Definition ex_t : torrent := {| t_name := [97]; t_length := Some 2; t_files := None; t_piece_length := 2; t_pieces := [[7;8]]; t_info_hash := [1] |}.
@@ -83,4 +83,16 @@ Proof.
     vm_compute. eapply fa_step. { apply A; [intros q [<-|[<-|[<-|[]]]]; reflexivity|reflexivity|reflexivity]. } { eapply (fs_unlock _ _ 0%nat); vm_compute; reflexivity. }
     vm_compute. apply fa_refl. apply A; [intros q [<-|[<-|[<-|[]]]]; reflexivity|reflexivity|reflexivity].
   - reflexivity.
+Qed.
+
+(** ... and the piece is STABLY available (its witness [s/x] is no export path of the table): the premises of
+    RerunProofs.stable_available_means_recovered and rerun_recovers hold here, the first run being e.g. [ex_reach_cut]. *)
+Example ex_stable : avail_stable ex_content ex_es ex_pc ex_wit ex_f0.
+Proof.
+  unfold avail_stable. vm_compute w_segs. constructor; [|constructor]. split.
+  - assert (Hv : avail ex_content ex_pc ex_wit ex_f0) by (apply ex_avail; [intros q [<-|[<-|[<-|[]]]]; reflexivity|reflexivity|reflexivity]).
+    unfold avail in Hv. vm_compute w_segs in Hv. inversion Hv; subst. assumption.
+  - intros _. cbn [ps_entry e_target ps_len ps_off]. split.
+    + split; intros e [Hin _]; vm_compute in Hin; destruct Hin as [<-|[]]; vm_compute; intuition discriminate.
+    + intros _. exists 5. split; [reflexivity|]. left. intros e [[Hin _] Hl]. vm_compute in Hin. destruct Hin as [<-|[]]. vm_compute in Hl. discriminate.
 Qed.
